@@ -736,10 +736,26 @@ def k13_add_form(core, rep):
            f'with input_only the form still touches the solve state: {[unparse(n.ast, 60) for n in bad]}', _w(f))
     # scheduled set = required_fields(); registered set = fields()
     sched = [c for n in muts for c in calls_in(n.ast) if call_name(c) == '_add_unattempted']
-    ok = len(sched) == 1 and len(sched[0].args) == 1 and isinstance(sched[0].args[0], ast.Call) and call_name(sched[0].args[0]) == 'required_fields'
+    # a local that is assigned once stands for what it was assigned (`required = new_form.required_fields()`)
+    once = {}
+    for x in ast.walk(f.node):
+        if isinstance(x, ast.Assign) and len(x.targets) == 1 and isinstance(x.targets[0], ast.Name):
+            once.setdefault(x.targets[0].id, []).append(x.value)
+    once = {k: v[0] for k, v in once.items() if len(v) == 1 and k not in params}
+
+    def _through(e):
+        return once[e.id] if isinstance(e, ast.Name) and e.id in once else e
+
+    def _text(e):
+        class _Sub(ast.NodeTransformer):
+            def visit_Name(self, nd):
+                return once[nd.id] if isinstance(nd.ctx, ast.Load) and nd.id in once else nd
+        import copy
+        return unparse(_Sub().visit(copy.deepcopy(e)))
+    ok = len(sched) == 1 and len(sched[0].args) == 1 and isinstance(_through(sched[0].args[0]), ast.Call) and call_name(_through(sched[0].args[0])) == 'required_fields'
     rep.ob('K13', 'schedules-exactly-the-required-lines', ok, f'_add_form() schedules {[unparse(c) for c in sched]} instead of the form\'s required lines', _w(f))
     solv = [n for n in muts if any(isinstance(x, ast.AugAssign) and self_attr(x.target) == s.solving for x in ast.walk(n.ast))]
-    ok = len(solv) == 1 and 'required_fields()' in unparse(solv[0].ast) and '.name()' in unparse(solv[0].ast)
+    ok = len(solv) == 1 and 'required_fields()' in _text(solv[0].ast) and '.name()' in _text(solv[0].ast)
     rep.ob('K13', 'marks-exactly-the-required-lines', ok, 'the set of lines being solved is not updated with the names of the required lines', _w(f))
     # a full load always schedules: the only condition the scheduling statements stand under is "not input-only" (a guard such as
     # "first time this form is seen" counts the input-only load as a first time, and the required lines of a form that was first
@@ -2218,6 +2234,47 @@ def k40_state_belongs_to_the_instance(core, rep, classes=('Solver', 'DependencyT
     return n
 
 
+# ---------------------------------------------------------------- K41 form, line and input objects answer from what they were built with
+def k41_definitions_keep_no_memory(core, rep, modules=('habutax/form.py', 'habutax/fields.py', 'habutax/inputs.py', 'habutax/pdf_fields.py'),
+                                   stateful=('InputStore', 'FormAccessor')):
+    """Outside their constructors (`__init__`, `__form_init__`) the classes that describe forms, lines, inputs and boxes
+    write nothing: no attribute of the object or its class is assigned, no table hanging off it is filled in place.  A
+    look-up that remembers its first answer (`Form.threshold` caching the entry that applied) gives the second return of
+    the process - or the second key asked for in one solve - the first one's amount."""
+    n = 0
+    for fn in core.funcs:
+        if fn.rel not in modules or fn.cls is None or fn.cls in stateful or fn.name in ('__init__', '__form_init__'):
+            continue
+        n += 1
+        me = fn.node.args.args[0].arg if fn.node.args.args else None
+        hit = None
+        for x in ast.walk(fn.node):
+            if isinstance(x, (ast.Assign, ast.AugAssign, ast.AnnAssign, ast.Delete)):
+                for t in (x.targets if isinstance(x, (ast.Assign, ast.Delete)) else [x.target]):
+                    for e in ast.walk(t) if isinstance(t, (ast.Tuple, ast.List)) else [t]:
+                        base = e
+                        while isinstance(base, (ast.Subscript, ast.Attribute)):
+                            base = base.value
+                            if isinstance(base, ast.Name) and base.id in (me, fn.cls, 'type') and isinstance(e, (ast.Attribute, ast.Subscript)):
+                                hit = hit or x
+            if isinstance(x, ast.Call) and isinstance(x.func, ast.Attribute) and x.func.attr in ('append', 'extend', 'add', 'update', 'insert', 'setdefault', 'pop', 'remove', 'clear', 'popitem', '__setitem__', '__setattr__') \
+                    and isinstance(x.func.value, (ast.Attribute, ast.Subscript)):
+                base = x.func.value
+                while isinstance(base, (ast.Subscript, ast.Attribute)):
+                    base = base.value
+                if isinstance(base, ast.Name) and base.id in (me, fn.cls):
+                    hit = hit or x
+            if isinstance(x, ast.Call) and isinstance(x.func, ast.Name) and x.func.id == 'setattr':
+                hit = hit or x
+            if isinstance(x, (ast.Global, ast.Nonlocal)):
+                hit = hit or x
+        rep.ob('K41', f'{fn.qual}/writes-nothing', hit is None,
+               f'{fn.qual}() writes to the object or its class outside the constructor (`{unparse(hit, 60) if hit is not None else ""}`): what it answers now depends on what it was asked before - '
+               'by another line of the same solve or by an earlier return solved in the same process', _w(fn, hit) if hit is not None else _w(fn))
+    rep.floor('methods of the describing classes looked at', n, 60)
+    return n
+
+
 # ---------------------------------------------------------------- K35 the input file is loaded once, whole and unchanged, when the store is built
 def k35_store_loaded_eagerly(core, rep):
     """InputStore.__init__ parses the file it is given there and then, and keeps it as read: `config` is a plain attribute
@@ -2412,6 +2469,15 @@ def k24_tracker_shape(core, rep, parts=('a', 'b', 'c', 'd')):
                 if isinstance(x, ast.Call) and call_name(x) == 'append' and isinstance(x.func.value, ast.Subscript) and self_attr(x.func.value.value) == '_unmet' \
                         and unparse(x.func.value.slice) == dep and [unparse(a) for a in x.args] == [waiter]:
                     recs.append(n)
+                # self._unmet.setdefault(dep, []).append(waiter) - directly, or through a local bound to the setdefault
+                if isinstance(x, ast.Call) and call_name(x) == 'append' and [unparse(a) for a in x.args] == [waiter]:
+                    tgt = x.func.value
+                    if isinstance(tgt, ast.Name):
+                        defs_ = [y.value for y in ast.walk(f.node) if isinstance(y, ast.Assign) and len(y.targets) == 1 and isinstance(y.targets[0], ast.Name) and y.targets[0].id == tgt.id]
+                        tgt = defs_[0] if len(defs_) == 1 else tgt
+                    if isinstance(tgt, ast.Call) and call_name(tgt) == 'setdefault' and self_attr(tgt.func.value) == '_unmet' and len(tgt.args) == 2 \
+                            and unparse(tgt.args[0]) == dep and isinstance(tgt.args[1], ast.List) and not tgt.args[1].elts:
+                        recs.append(n)
         ok = bool(recs) and not g.paths_avoiding(g.entry, g.exit, {n.id for n in recs})
         rep.ob('K24a', 'add_unmet-records-every-waiter', ok,
                f'DependencyTracker.add_unmet() has a path on which the waiter `{waiter}` is not recorded under `{dep}`: that line would never be re-attempted nor reported', _w(f))
@@ -3232,6 +3298,16 @@ def k12c_who_calls(core, rep):
     seen = {k: 0 for k in allowed}
     for f in core.funcs:
         if f.rel != s.rel:
+            # the line, form and input classes never reach into the solver to add forms or evaluate lines (the filler has an
+            # _add_form of its own, on itself)
+            if f.rel != 'habutax/pdf_filler.py':
+                for c in calls_in(f.node):
+                    nm = call_name(c)
+                    if nm in allowed and isinstance(c.func, ast.Attribute) and nm != 'met_dependents':
+                        rep.ob('K12c', f'{nm}-called-from/{f.qual}@{unparse(c, 40)}', False,
+                               f'{f.qual}() calls {nm}() on the solver: ' + {'_add_form': 'a form is added - with all its required lines - because a definition merely looked at it (Field.form(name) fetches a '
+                                                                             'threshold), so the solution holds forms nobody requested and no line read',
+                                                                             '_attempt_field': 'a line is evaluated from inside another definition, outside the work-list loop'}[nm], _w(f, c))
             continue
         for c in calls_in(f.node):
             nm = call_name(c)
